@@ -143,8 +143,24 @@ class Result:
         self.theorems = []
 
 
+def own_files(mod):
+    """Coq sources a property builds: its COQ_DIRS, except that from the shared directory of
+    generated files (Gen/) only its own Gen/<ID>_*.v count (what those import is found by make),
+    so that another property's half-regenerated translator output cannot break this check."""
+    out = []
+    for f in coq_sources():
+        d, base = f.split("/")[0], f.split("/")[-1]
+        if d not in mod.COQ_DIRS:
+            continue
+        if d == "Gen" and not base.startswith(mod.ID + "_") and not any(
+                base.startswith(x + "_") for x in getattr(mod, "GEN_PREFIXES", [])):
+            continue
+        out.append(f)
+    return out
+
+
 def proof_stage(mod, res, tier):
-    files = [f for f in coq_sources() if f.split("/")[0] in mod.COQ_DIRS]
+    files = own_files(mod)
     if not files:
         res.proof_ok = False
         res.proof_problems.append("no Coq files for " + mod.ID)
@@ -156,7 +172,7 @@ def proof_stage(mod, res, tier):
         except Exception as e:  # translator failed closed
             res.proof_ok = False
             res.proof_problems.append("translator failed closed: %r" % (e,))
-            files = [f for f in coq_sources() if f.split("/")[0] in mod.COQ_DIRS]
+            files = own_files(mod)
     ok, log = build([f + "o" for f in files])
     allfiles = closure_files(files)
     names = []
@@ -498,7 +514,7 @@ def main(prop_id, tier="quick", replay=None):
         "property_id": mod.ID, "tier": tier, "seed": seed, "level": "proof",
         "coverage": {
             "obligations": res.obligations, "discharged": res.discharged if res.proof_ok else min(res.discharged, max(res.obligations - 1, 0)),
-            "checker_cmd": "make -C /verif/coq %s (coqc 8.16.1, full .vo) && coqc %s  [Print Assumptions]" % (" ".join(d + "/*.vo" for d in mod.COQ_DIRS), mod.PROPERTY_FILE),
+            "checker_cmd": "make -C /verif/coq %s (coqc 8.16.1, full .vo) && coqc %s  [Print Assumptions]" % (" ".join((d + "/*.vo") if d != "Gen" else ("Gen/%s_*.vo" % mod.ID) for d in mod.COQ_DIRS), mod.PROPERTY_FILE),
             "trusted_base": BASE_TRUSTED + list(getattr(mod, "TRUSTED_BASE", [])),
             "property_theorems": res.theorems,
             "axioms_reported_by_Print_Assumptions": res.axioms or ["Closed under the global context"],
